@@ -1254,6 +1254,10 @@ class Scalariser(object):
             return e
         if e.op == 'idx':
             return self.cell(e.args[0], e.args[1], e.ty)
+        if e.op == 'i2r':
+            # exact int -> double conversion: the never-written model array I2R (only its value at this index matters here)
+            self.read_only.add('I2R')
+            return self.cell('I2R', e.args[0], REAL)
         from expr import rebuild
         return rebuild(e.op, [self.ex(a) for a in e.args], e.ty)
 
